@@ -13,7 +13,7 @@ class T:
     async def close(self, force_after=None): pass
     async def abort(self): pass
 async def main():
-    d = tempfile.mkdtemp(prefix='c07', dir='/tmp/exp')
+    d = tempfile.mkdtemp(prefix='c07')
     chain = Chain(1)
     for i in range(6): chain.add_block(2)
     env = make_env(d)
